@@ -54,7 +54,7 @@ fn two_different(c: &mut Choices) -> ((String, String), (String, String)) {
     }
 }
 
-pub const N_SNIPPETS: usize = 37;
+pub const N_SNIPPETS: usize = 38;
 
 pub fn snippet(k: usize, c: &mut Choices) -> Snippet {
     let mut decls = String::new();
@@ -401,6 +401,51 @@ pub fn snippet(k: usize, c: &mut Choices) -> Snippet {
                 format!("let zz = ({v}) {op} ({v});\n")
             };
             (if ordering { "ordering-of-non-numbers" } else { "arithmetic-on-non-numbers" }, s)
+        }
+        37 => {
+            // type arguments have to be equal: a generic type at one argument is another type
+            // than the same generic type at another argument -- also when one of the two is `!`
+            let args = ["u8", "u16", "u32", "u64", "i8", "i16", "i32", "i64", "f32", "f64", "bool", "char", "String", "()", "!", "Option[i32]", "List[u8]"];
+            let a = args[c.below(args.len())];
+            let mut b = args[c.below(args.len())];
+            if a == b {
+                b = if a == "!" { "i32" } else { "!" };
+            }
+            decls.push_str("record ZzBox[T] { zv: T, zn: i32 }\nenum ZzE[T] { ZzA, ZzB(T) }\n");
+            let shapes: [(&str, &str); 11] = [
+                ("Option[", "]"),
+                ("List[", "]"),
+                ("Result[", ", i32]"),
+                ("Result[i32, ", "]"),
+                ("Verdict[", ", u8]"),
+                ("Verdict[u8, ", "]"),
+                ("ZzBox[", "]"),
+                ("ZzE[", "]"),
+                ("Option[Option[", "]]"),
+                ("List[Option[", "]]"),
+                ("Option[ZzE[", "]]"),
+            ];
+            let (l, r) = shapes[c.below(shapes.len())];
+            let (ta, tb) = (format!("{l}{a}{r}"), format!("{l}{b}{r}"));
+            let s = match c.below(4) {
+                0 => {
+                    decls.push_str(&format!("fn zz_conv(x: {ta}) -> {tb} {{ x }}\n"));
+                    "let zz = 1;\n".to_string()
+                }
+                1 => {
+                    decls.push_str(&format!("fn zz_conv(x: {ta}) -> i32 {{ let zzy: {tb} = x; 1 }}\n"));
+                    "let zz = 1;\n".to_string()
+                }
+                2 => {
+                    decls.push_str(&format!("fn zz_take(x: {tb}) -> i32 {{ 1 }}\nfn zz_conv(x: {ta}) -> i32 {{ zz_take(x) }}\n"));
+                    "let zz = 1;\n".to_string()
+                }
+                _ => {
+                    decls.push_str(&format!("fn zz_conv(x: {ta}, y: {tb}) -> bool {{ x == y }}\n"));
+                    "let zz = 1;\n".to_string()
+                }
+            };
+            ("generic-type-at-another-type-argument", s)
         }
         _ => {
             let s = match c.below(3) {
